@@ -220,7 +220,12 @@ def run(ctx):
     V = repo.cls("field.validator.Validator")
     f_val = ctx.anchor("Validator._validate_gfa_field",
                        V.find_method("_validate_gfa_field"))
-    modabs = Abs(None, label="module-of-datatype")
+    asked = []
+    modabs = Abs(None, label="module-of-datatype",
+                 validate_decoded=("pyfunc", lambda o: asked.append(
+                     ("validate_decoded", o))),
+                 validate_encoded=("pyfunc", lambda o: asked.append(
+                     ("validate_encoded", o))))
 
     class DH(LineHooks):
         def class_attr(self, ev, cls, attr):
@@ -229,10 +234,6 @@ def run(ctx):
             return super().class_attr(ev, cls, attr)
 
         def method(self, ev, base, name, args, kwargs, node):
-            if base is modabs and name in ("validate_decoded",
-                                           "validate_encoded"):
-                ev.events.append((name, args[0]))
-                return None
             if isinstance(base, Abs) and base.label == "value:FieldArray" \
                     and name == "_validate_gfa_field":
                 ev.events.append(("array-validates-itself",
@@ -249,8 +250,9 @@ def run(ctx):
             v = value_of_class(repo, vc, "value:%s" % vc)
             if isinstance(v, Abs) and v.attrs.get("__builtin__"):
                 v.cls = FakeBuiltin(v.attrs["__builtin__"])
+            del asked[:]
             out = eval_function(repo, f_val, [v, dt, "xx"], hooks=DH(repo))
-            evs = [e for e in out[2] if e[0] != "store"]
+            evs = [e for e in out[2] if e[0] != "store"] + list(asked)
             if vc == "FieldArray":
                 ok = out[0] == "return" and \
                     evs == [("array-validates-itself", dt)]
